@@ -10,6 +10,7 @@ use rxrust::prelude::*;
 use crate::pipe::{build_local, build_threads, LCtx, TCtx};
 use crate::sexp::SExp;
 use crate::val::{Notif, Val};
+use crate::vtime::{self, Exec, Queue};
 use crate::{Case, Out};
 
 struct Probe(Rc<RefCell<Vec<Notif>>>);
@@ -57,8 +58,41 @@ pub fn run(case: &Case, out: &mut Out) {
   }
 }
 
+/// Scheduler events shared by both flavours; returns false if `ev` is not one.
+fn time_event(ev: &[SExp], exec: &Exec) -> bool {
+  match ev[0].atom() {
+    "adv" => vtime::advance(ev[1].nat() as u64),
+    "fire" => {
+      let due = vtime::due_timers();
+      if let Some(t) = due.get(ev[1].nat()) {
+        vtime::fire(*t);
+      }
+    }
+    "poll" => {
+      let live = exec.live();
+      if let Some(k) = live.get(ev[1].nat()) {
+        exec.poll(*k);
+      }
+    }
+    "run" => exec.run(),
+    _ => return false,
+  }
+  true
+}
+
+fn suffix(case: &Case, exec: &Exec) -> String {
+  if case.suite == "time" {
+    format!(" live={} tm={} t={}", exec.live().len(), vtime::timers_created(), vtime::now())
+  } else {
+    String::new()
+  }
+}
+
 fn run_local(case: &Case, out: &mut Out) {
+  vtime::install();
+  vtime::reset();
   let ctx = LCtx::default();
+  let exec = Exec::new(Queue::Local(ctx.sched.clone()));
   let log = Rc::new(RefCell::new(Vec::<Notif>::new()));
   let pipe_expr: &SExp = &case.field("pipe")[0];
   let pipeline = build_local(pipe_expr, &ctx);
@@ -70,7 +104,8 @@ fn run_local(case: &Case, out: &mut Out) {
       "sub" => {
         let u = pipeline.clone().actual_subscribe(Probe(log.clone()));
         sub = Some(u);
-        out.emit(k, fmt_log(drain(&log)));
+        let sfx = suffix(case, &exec);
+        out.emit(k, fmt_log(drain(&log)) + &sfx);
       }
       "emit" => {
         let mut s = ctx.subject(ev[1].nat());
@@ -79,13 +114,15 @@ fn run_local(case: &Case, out: &mut Out) {
           Notif::Error(e) => s.error(e),
           Notif::Complete => s.complete(),
         }
-        out.emit(k, fmt_log(drain(&log)));
+        let sfx = suffix(case, &exec);
+        out.emit(k, fmt_log(drain(&log)) + &sfx);
       }
       "unsub" => {
         if let Some(u) = sub.take() {
           u.unsubscribe();
         }
-        out.emit(k, fmt_log(drain(&log)));
+        let sfx = suffix(case, &exec);
+        out.emit(k, fmt_log(drain(&log)) + &sfx);
       }
       "q" => match ev[1].atom() {
         "closed" => {
@@ -96,15 +133,23 @@ fn run_local(case: &Case, out: &mut Out) {
           let c = ctx.counters.borrow().tap.clone();
           out.emit(k, format!("tap={:?}", c).replace(' ', ""));
         }
+        "timers" => out.emit(k, format!("timers={:?}", vtime::requested()).replace(' ', "")),
         q => panic!("unknown query {}", q),
       },
+      _ if time_event(ev, &exec) => {
+        let sfx = suffix(case, &exec);
+        out.emit(k, fmt_log(drain(&log)) + &sfx);
+      }
       e => panic!("unknown event {}", e),
     }
   }
 }
 
 fn run_threads(case: &Case, out: &mut Out) {
+  vtime::install();
+  vtime::reset();
   let ctx = TCtx::default();
+  let exec = Exec::new(Queue::Shared(ctx.sched.clone()));
   let log = Arc::new(Mutex::new(Vec::<Notif>::new()));
   let pipe_expr: &SExp = &case.field("pipe")[0];
   let pipeline = build_threads(pipe_expr, &ctx);
@@ -116,7 +161,8 @@ fn run_threads(case: &Case, out: &mut Out) {
       "sub" => {
         let u = pipeline.clone().actual_subscribe(ProbeT(log.clone()));
         sub = Some(u);
-        out.emit(k, fmt_log(drain(&log)));
+        let sfx = suffix(case, &exec);
+        out.emit(k, fmt_log(drain(&log)) + &sfx);
       }
       "emit" => {
         let mut s = ctx.subject(ev[1].nat());
@@ -125,13 +171,15 @@ fn run_threads(case: &Case, out: &mut Out) {
           Notif::Error(e) => s.error(e),
           Notif::Complete => s.complete(),
         }
-        out.emit(k, fmt_log(drain(&log)));
+        let sfx = suffix(case, &exec);
+        out.emit(k, fmt_log(drain(&log)) + &sfx);
       }
       "unsub" => {
         if let Some(u) = sub.take() {
           u.unsubscribe();
         }
-        out.emit(k, fmt_log(drain(&log)));
+        let sfx = suffix(case, &exec);
+        out.emit(k, fmt_log(drain(&log)) + &sfx);
       }
       "q" => match ev[1].atom() {
         "closed" => {
@@ -142,8 +190,13 @@ fn run_threads(case: &Case, out: &mut Out) {
           let c = ctx.counters.lock().unwrap().tap.clone();
           out.emit(k, format!("tap={:?}", c).replace(' ', ""));
         }
+        "timers" => out.emit(k, format!("timers={:?}", vtime::requested()).replace(' ', "")),
         q => panic!("unknown query {}", q),
       },
+      _ if time_event(ev, &exec) => {
+        let sfx = suffix(case, &exec);
+        out.emit(k, fmt_log(drain(&log)) + &sfx);
+      }
       e => panic!("unknown event {}", e),
     }
   }
